@@ -57,13 +57,24 @@ def gen(rng, n, tier):
             out.append({"k": "line", "line": "t.raw " + s})
     for _ in range(n):
         r = rng.random()
-        if r < 0.40:
+        if r < 0.34:
             args = [_join(rng, ARG_TOKENS, 0, 5) for _ in range(rng.weighted([(6, 1), (3, 2), (1, 3)]))]
             out.append({"k": "rt", "cmd": rng.weighted([(6, "t.raw"), (4, "t.str")]), "args": args,
                         "sep": rng.weighted([(8, " "), (1, "  "), (1, "\t"), (1, "\n")])})
-        elif r < 0.65:
+        elif r < 0.55:
             head = rng.weighted([(5, "t.raw "), (3, "t.str "), (1, "t.two "), (1, "")])
             out.append({"k": "line", "line": head + _join(rng, LINE_TOKENS, 0, 7)})
+        elif r < 0.67:
+            keys = rng.weighted([(6, ["tab"]), (1, ["tab", "tab"]), (1, ["shift tab"]), (1, ["tab", "shift tab"]),
+                                 (1, ["left", "tab"]), (1, ["home", "tab"]), (1, ["tab", "end", "tab"]), (1, [])])
+            c = {"k": "seq", "keys": keys, "pre": rng.chance(0.5)}
+            if rng.chance(0.6):
+                c.update({"cmd": rng.weighted([(6, "t.raw"), (4, "t.str")]), "sep": " ",
+                          "args": [_join(rng, ARG_TOKENS, 0, 4) for _ in range(rng.weighted([(5, 1), (3, 2), (1, 3), (1, 0)]))]})
+            else:
+                head = rng.weighted([(4, "t.raw "), (3, "t.str "), (1, "t.two "), (1, "t.r"), (1, "t."), (1, "")])
+                c["line"] = head + _join(rng, LINE_TOKENS, 0, 5)
+            out.append(c)
         elif r < 0.72:
             out.append({"k": "q", "s": _join(rng, ARG_TOKENS, 0, 6)})
         elif r < 0.75:
@@ -111,24 +122,31 @@ def setup_impl():
 
     _t.ctx = taddons.context()
     _t.ctx.__enter__()
-    _t.cm = Rec(_t.ctx.master)
-    _t.cm.collect_commands(Addon())
+    def new_cm():
+        cm = Rec(_t.ctx.master)
+        cm.collect_commands(Addon())
+        return cm
+
+    _t.new_cm = new_cm
+    _t.cm = new_cm()
+    _t.space = mitmproxy.types.Space
     _t.lexer = command_lexer
     _t.exc = exceptions
     _t.strtype = mitmproxy.types.CommandTypes.get(str)
     _t.kt = bool(command_lexer.expr.keepTabs)
 
 
-def _execute(line):
+def _execute(line, cm=None):
+    cm = cm or _t.cm
     _t.call = None
     _t.got = None
     try:
-        _t.cm.execute(line)
+        cm.execute(line)
         out = ["ok"] + _t.got if _t.got is not None else ["other", "command not run"]
     except _t.exc.CommandError as e:
         if _t.call is None:
             out = ["invalid"]
-        elif _t.call[0] not in _t.cm.commands:
+        elif _t.call[0] not in cm.commands:
             out = ["unknown"]
         elif isinstance(e.__cause__, ValueError):
             out = ["parse"]
@@ -141,8 +159,72 @@ def _execute(line):
     return {"kt": _t.kt, "line": line, "call": _t.call, "out": out}
 
 
+def _snap(cm, line):
+    parts, _ = cm.parse_partial(line)
+    return [[p.value, p.type == _t.space] for p in parts]
+
+
+def _run_seq(case):
+    """One CommandManager for a whole console interaction: (optional) parse, type the line into the real
+    CommandEdit key by key, press the completion keys, then Enter (= execute the prompt text on the same manager);
+    the same line on a fresh manager is the reference."""
+    from mitmproxy.tools.console.commander import commander
+    if "line" in case:
+        want = case["line"]
+    else:
+        want = case["cmd"] + "".join(case["sep"] + _t.lexer.quote(a) for a in case["args"])
+    master = _t.ctx.master
+    cm = _t.new_cm()
+    old = master.commands
+    master.commands = cm
+    try:
+        pb = _snap(cm, want) if case["pre"] else None
+        mode = "edit"
+        try:
+            edit = commander.CommandEdit(master, "")
+            for ch in want:
+                edit.keypress((80,), ch)
+            line = edit.get_edit_text()
+            for key in case["keys"]:
+                edit.keypress((80,), key)
+            text_after = edit.get_edit_text()
+        except Exception:  # urwid cannot render some code points: drive the CommandBuffer directly
+            mode = "buffer"
+            buf = commander.CommandBuffer(master, "")
+            for ch in want:
+                buf.insert(ch)
+            line = buf.text
+            for key in case["keys"]:
+                if key == "tab":
+                    buf.cycle_completion()
+                elif key == "shift tab":
+                    buf.cycle_completion(False)
+                elif key == "left":
+                    buf.left()
+                elif key == "home":
+                    buf.cursor = 0
+                elif key == "end":
+                    buf.cursor = len(buf.text)
+            text_after = buf.text
+        r1 = _execute(line, cm)
+        r2 = _execute(text_after, cm) if text_after != line else None
+        pa = _snap(cm, line)
+    finally:
+        master.commands = old
+    fresh = _t.new_cm()
+    pf = _snap(fresh, line)
+    f1 = _execute(line, fresh)
+    f2 = _execute(text_after, fresh) if text_after != line else None
+    return {"kt": _t.kt, "line": line, "typed_as_wanted": line == want, "mode": mode, "text_after": text_after,
+            "pb": pb if (pb is not None and line == want) else pf, "pa": pa, "pf": pf,
+            "call": r1["call"], "out": r1["out"], "out_f": f1["out"], "call_f": f1["call"],
+            "out2": r2 and r2["out"], "out2_f": f2 and f2["out"]}
+
+
 def run_impl(case):
     k = case["k"]
+    if k == "seq":
+        return _run_seq(case)
     if k == "rt":
         line = case["cmd"] + "".join(case["sep"] + _t.lexer.quote(a) for a in case["args"])
         return _execute(line)
@@ -195,6 +277,10 @@ def coq_case(case, obs):
             return f"Exec {cbool(obs['kt'])} {_cs(obs['line'])} {_ccall(obs['call'])} {_cobs(obs['out'])}"
         return (f"RoundTrip {cbool(obs['kt'])} {_cs(case['cmd'])} {clist((_cs(a) for a in case['args']), 'str')} "
                 f"{_cs(obs['line'])} {_ccall(obs['call'])} {_cobs(obs['out'])}")
+    if k == "seq":
+        pp = lambda l: clist((f"({_cs(v)}, {cbool(sp)})" for v, sp in l), "(str * bool)")
+        return (f"Session {cbool(obs['kt'])} {_cs(obs['line'])} {pp(obs['pb'])} {pp(obs['pa'])} "
+                f"{_ccall(obs['call'])} {_cobs(obs['out'])}")
     if k == "line":
         return f"Exec {cbool(obs['kt'])} {_cs(obs['line'])} {_ccall(obs['call'])} {_cobs(obs['out'])}"
     if k == "q":
@@ -334,6 +420,19 @@ def oracle(case, obs):
         if w != [obs["q"]] or ref_unq(obs["q"]) != s or obs["back"] != s:
             return [{"key": "quote-not-one-word", "what": f"quote({ascii(s)}) = {ascii(obs['q'])}"}]
         return []
+    if k == "seq":
+        v = []
+        if obs["pb"] != obs["pf"] or obs["pa"] != obs["pf"]:
+            v.append({"key": "parse-partial-not-pure",
+                      "what": f"parse_partial({ascii(obs['line'])}) on one manager around keys {case['keys']}: before "
+                              f"{ascii(obs['pb'])}, after {ascii(obs['pa'])}, fresh manager {ascii(obs['pf'])}"})
+        if obs["out"] != obs["out_f"] or obs["call"] != obs["call_f"] or obs["out2"] != obs["out2_f"]:
+            v.append({"key": "session-changes-execute",
+                      "what": f"type {ascii(obs['line'])}, keys {case['keys']}, Enter -> {ascii(obs['out'])} / {ascii(obs['out2'])}; "
+                              f"fresh manager -> {ascii(obs['out_f'])} / {ascii(obs['out2_f'])}"})
+        if "args" in case and obs["typed_as_wanted"]:
+            return v + oracle({"k": "rt", "cmd": case["cmd"], "args": case["args"], "sep": case["sep"]}, obs)
+        return v + oracle({"k": "line", "line": obs["line"]}, obs)
     if k not in ("rt", "line"):
         return []
     line, kt, out = obs["line"], obs["kt"], obs["out"]
@@ -368,6 +467,8 @@ def oracle(case, obs):
 
 def nontrivial(case, obs):
     k = case["k"]
+    if k == "seq":
+        return any(key in ("tab", "shift tab") for key in case["keys"]) and len(obs["pf"]) >= 1
     if k == "rt":
         return any(a == "" or any(c in a for c in "'\" \r\n\t\\") for a in case["args"])
     if k in ("line", "lex"):
@@ -383,6 +484,11 @@ def nontrivial(case, obs):
 def classify(case, obs):
     k = case["k"]
     tags = [k]
+    if k == "seq":
+        tags += ["seq-keys=" + "+".join(case["keys"]), "seq-mode=" + obs["mode"], "seq-out=" + obs["out"][0],
+                 "seq-text-changed" if obs["text_after"] != obs["line"] else "seq-text-same",
+                 "seq-last-nonspace" if obs["pf"] and not obs["pf"][-1][1] else "seq-last-space-or-empty"]
+        return tags
     if k in ("rt", "line"):
         tags.append("out=" + obs["out"][0])
         tags.append("keepTabs=%d" % obs["kt"])
